@@ -417,6 +417,10 @@ func renderStmt(s Node, full bool) string {
 // renderProgram renders a case program: global pattern definitions,
 // transforms, then the commands.
 func renderProgram(c Node) string {
+	// a case may give its source text literally (C16: the spelling matters)
+	if sb, ok := c["srcbytes"]; ok {
+		return string(anyBytes(sb))
+	}
 	var parts []string
 	for _, d := range nlist(c, "defs") {
 		s := "set " + nstr(d, "name") + " to pattern " + renderSeq(nlist(d, "es"))
